@@ -1,6 +1,8 @@
 SPECIFICATION Spec
 CONSTANTS MaxBr = 3 MaxN = 4 CopyMode = "deep"
   BufSizes <- BufAll
+  FillBr = 3
+  FillTemplates <- FillFew
   Templates <- AllTemplates
 INVARIANT Isolated
 INVARIANT YieldedStable
@@ -8,4 +10,5 @@ INVARIANT PrefixIsolated
 INVARIANT HeldDisjoint
 INVARIANT OnlyLastSeesSource
 INVARIANT ZipNeverSeesSource
+INVARIANT SourceByLastOnly
 CHECK_DEADLOCK FALSE
